@@ -368,6 +368,7 @@ type simEnv struct {
 	peekStale bool                  // record how stale the cached clock was at invoke/return of every call
 	onRestart []func()              // re-install white-box monitors on the new store
 	pub       atomic.Pointer[cacheAPI]
+	standby   *cacheAPI // Params["standby"]: an idle cache built that many ns before the main one; the first restart loads into it
 }
 
 func valueFor(client, idx int) V { return int64(client+1)<<40 | int64(idx+1)<<8 }
@@ -539,7 +540,16 @@ func (env *simEnv) restart(op Op, rec *Rec) {
 	if op.Dur > 0 {
 		simrt.Sleep(op.Dur)
 	}
-	api, err := buildCacheCfg(rd, rd.Sc.Cache)
+	var api *cacheAPI
+	var err error
+	if env.standby != nil {
+		// the stream is loaded into a cache that was built BEFORE the saving one and has been
+		// idle since: LoadCache moves its clock origin forward, i.e. its clock steps back
+		api, env.standby = env.standby, nil
+		simrt.Fault("restart.into-older-standby")
+	} else {
+		api, err = buildCacheCfg(rd, rd.Sc.Cache)
+	}
 	if err != nil {
 		rd.violate("harness/build", err.Error())
 		return
@@ -626,13 +636,23 @@ func runScenario(sc *Scenario, setup func(env *simEnv)) *RunData {
 	rd := &RunData{Sc: sc, Snaps: map[string]*Snap{}, SnapAt: map[string]uint64{}, InFlight: make([]*Rec, len(sc.Clients)+1), ClientTask: make([]int, len(sc.Clients)+1)}
 	cfg := simConfig(sc)
 	rd.Res = simrt.Run(cfg, func() {
+		var standby *cacheAPI
+		if age := sc.Params["standby"]; age > 0 {
+			sb, err := buildCacheCfg(rd, sc.Cache)
+			if err != nil {
+				rd.violate("harness/build", err.Error())
+				return
+			}
+			standby = sb
+			simrt.Sleep(age)
+		}
 		api, err := buildCache(rd)
 		if err != nil {
 			rd.violate("harness/build", err.Error())
 			return
 		}
 		rd.Clock0 = simrt.Now()
-		env := &simEnv{rd: rd, api: api}
+		env := &simEnv{rd: rd, api: api, standby: standby}
 		if debugPolicy && !simrt.RaceEnabled {
 			last := ""
 			simrt.OnRelease(internal.PolicyMuKey(rd.Store), func() {
